@@ -72,6 +72,28 @@ def handleHandler : List Sexp → Option String
     match guarded (← hDataset? ds) (← hStr? p) (← hStr? q) with
     | .ok (k, _) => pure ("ok:" ++ hKind k)
     | .error e => pure ("err:" ++ hExc e)
+  | [atom "h-clen", ds, p, q] => do
+    -- the Content-length header of the data response (`calculate_size`): a number, `none`, or `n/a`
+    match guarded (← hDataset? ds) (← hStr? p) (← hStr? q) with
+    | .ok (.dods, cds) => pure (match contentLength cds with | some n => toString n | none => "none")
+    | _ => pure "n/a"
+  | [atom "h-xdrwf", ds, p, q] => do
+    -- is the constrained dataset in C05's domain (the hypothesis of C06_payload_decodes; proved from hypotheses on
+    -- the source by C06_payload_decodes_source)?  measured on the generated cases
+    match guarded (← hDataset? ds) (← hStr? p) (← hStr? q) with
+    | .ok (_, cds) => pure (toString (Xdr.WF (tmplOf cds) (dataOf cds)))
+    | _ => pure "n/a"
+  | [atom "h-proc", list hs, list rs] => do
+    -- a history: handlers `(key dataset)`, requests `(key path query)`; the answers in order
+    let handlers ← hs.mapM fun h => match h with
+      | list [k, ds] => do pure (← hStr? k, ← hDataset? ds)
+      | _ => none
+    let reqs ← rs.mapM fun r => match r with
+      | list [k, p, q] => do pure (Req.mk (← hStr? k) (← hStr? p) (← hStr? q))
+      | _ => none
+    pure (";".intercalate ((run intText ⟨handlers⟩ reqs).map fun o => match o with
+      | some o => hOutcome o
+      | none => "no-handler"))
   | [atom "h-pinned", ds, p, q] => do
     pure (hOutcome (handlePinned intText (← hDataset? ds) (← hStr? p) (← hStr? q)))
   | [atom "h-parsece", q] => do
